@@ -29,6 +29,12 @@ fn kind(k: &str) -> (String, Vec<u16>, bool) {
         "cors" => (format!("GET /hello HTTP/1.1\r\n{h}origin: http://evil.test\r\n"), vec![403], false),
         "nocontent" => (format!("GET /nocontent HTTP/1.1\r\n{h}"), vec![204], false),
         "big" => (format!("GET /big HTTP/1.1\r\n{h}accept-encoding: gzip\r\n"), vec![200], false),
+        // a large text-like body through each encoder, HEAD before or after the GET (the lengths must agree either way)
+        "headbig" => (format!("HEAD /big HTTP/1.1\r\n{h}accept-encoding: gzip\r\n"), vec![200], true),
+        "bigbr" => (format!("GET /big HTTP/1.1\r\n{h}accept-encoding: br\r\n"), vec![200], false),
+        "headbigbr" => (format!("HEAD /big HTTP/1.1\r\n{h}accept-encoding: br\r\n"), vec![200], true),
+        "bigzstd" => (format!("GET /big HTTP/1.1\r\n{h}accept-encoding: zstd\r\n"), vec![200], false),
+        "headbigzstd" => (format!("HEAD /big HTTP/1.1\r\n{h}accept-encoding: zstd\r\n"), vec![200], true),
         // a POST whose 35-byte body looks like a request and arrives after the head; the handler never reads it
         "postlate" => (format!("POST /hello HTTP/1.1\r\n{h}content-length: 35\r\n"), vec![200], false),
         // the handler reads only the first 10 bytes of a 45-byte body; the other 35 look like a request
@@ -38,7 +44,7 @@ fn kind(k: &str) -> (String, Vec<u16>, bool) {
         _ => unreachable!("{k}"),
     }
 }
-const KINDS: [&str; 25] = ["postpartial", "posthuge", "postlate", "get", "head", "getgz", "headgz", "getbr", "uncached", "empty", "missing", "headmissing", "range", "headrange", "range416", "ims", "unsafe", "headunsafe", "notacceptable", "png406", "post", "options", "cors", "nocontent", "big"];
+const KINDS: [&str; 30] = ["headbig", "bigbr", "headbigbr", "bigzstd", "headbigzstd", "postpartial", "posthuge", "postlate", "get", "head", "getgz", "headgz", "getbr", "uncached", "empty", "missing", "headmissing", "range", "headrange", "range416", "ims", "unsafe", "headunsafe", "notacceptable", "png406", "post", "options", "cors", "nocontent", "big"];
 
 fn build(limited: bool) -> std::sync::Arc<HostCollection> {
     let mut ext = Extensions::new();
@@ -69,7 +75,17 @@ fn build(limited: bool) -> std::sync::Arc<HostCollection> {
         FatResponse::no_cache(Response::new(Bytes::from(format!("read {} bytes of the body ......................................", b.len()))))
     }));
     ext.add_prepare_single("/big", prepare!(_r, _h, _p, _a, {
-        let mut r = Response::new(Bytes::from(gen_bytes(70_000, 3)));
+        // text-like: words drawn by a generator, so that the compression level changes the size of the result
+        let words = ["the", "quick", "brown", "fox", "jumps", "over", "lazy", "dog", "kvarn", "server", "response", "header", "{", "}", "\"id\":", "true", "null", ",\n", "0.25", "content"];
+        let noise = gen_noise(40_000, 9);
+        let mut text = String::with_capacity(80_000);
+        for (i, b) in noise.iter().enumerate() {
+            if text.len() >= 70_000 { break; }
+            text.push_str(words[(*b as usize + i / 97) % words.len()]);
+            text.push(if b % 5 == 0 { '\n' } else { ' ' });
+        }
+        text.truncate(70_000);
+        let mut r = Response::new(Bytes::from(text.into_bytes()));
         r.headers_mut().insert("content-type", HeaderValue::from_static("application/json"));
         FatResponse::cache(r)
     }));
@@ -99,6 +115,9 @@ impl Group for Framing {
             // F22: a rate-limited HEAD
             "c08.conn 1 [get,get,head,head,head,head,get,head,get]".to_owned(),
             "c08.conn 0 [getgz,headgz,get,head,range,headrange]".to_owned(),
+            // a cold HEAD, then the GET, then HEAD again — for each encoder
+            "c08.conn 0 [headbig,big,headbig]".to_owned(),
+            "c08.conn 0 [headbigbr,bigbr,headbigbr,headbigzstd,bigzstd,headbigzstd]".to_owned(),
         ];
         // requests arriving in two TCP segments: the blank line on its own, the last LF on its own, cuts elsewhere
         v.push("c08.conn 0 [get,get/2,head/1,get/4,get/3,getgz/2,head/2,get/-1,get/-9,post/2,get]".to_owned());
@@ -193,7 +212,12 @@ impl Group for Framing {
             if r.status != 429 {
                 if head {
                     if let (Some(g), Some(h)) = (last_get_len.get(&key), cl_val) { if *g != h { problems.push(format!("request {i} ({k}): HEAD content-length {h} but GET had {g}")); } }
-                } else if r.status != 304 { last_get_len.insert(k.clone(), cl_val.unwrap_or(0)); }
+                    // the HEAD may come first (a cold entry): remembered for the GET that follows
+                    if let Some(h) = cl_val { if r.status == 200 { last_get_len.insert(format!("head:{key}"), h); } }
+                } else if r.status != 304 {
+                    if let (Some(h), Some(g)) = (last_get_len.get(&format!("head:{k}")), cl_val) { if r.status == 200 && *h != g { problems.push(format!("request {i} ({k}): GET content-length {g} but the HEAD before it declared {h}")); } }
+                    last_get_len.insert(k.clone(), cl_val.unwrap_or(0));
+                }
             }
         }
         // nothing may follow the last response
